@@ -195,7 +195,7 @@ func init() {
 			bound = 5
 		}
 		for i, in := range raceInputs() {
-			engine.ExploreS(ctx, scenario(fmt.Sprintf("nat-race-%d", i), in, false), engine.SConfig{Bound: bound, Shard: ctx.Shard, NShards: ctx.NShards, Deadline: ctx.Deadline})
+			engine.ExploreS(ctx, scenario(fmt.Sprintf("nat-race-%d", i), in, false), engine.SConfig{BothPolicies: true, Bound: bound, Shard: ctx.Shard, NShards: ctx.NShards, Deadline: ctx.Deadline})
 		}
 	})
 	hk.Replayers["C04"] = func(ctx *engine.Ctx, rp engine.Replay) []*engine.Finding {
